@@ -290,3 +290,92 @@ func firstLineP(s string) string {
 	}
 	return s
 }
+
+// c20-byteslogger: the per-connection traffic logger.  Two data-path threads account sends and
+// receives (distinct amounts, so that every byte total identifies its event count) while a third does
+// what the data channel's OnClose handler does (ThroughputSummary, then GetStat).  Every summary must
+// pair byte totals with the event counts of the same instant; once everything is applied the totals are
+// exact.  In race mode (C20) the same executions are watched by the race detector.
+func init() {
+	type blWorld struct {
+		b        *bytesSyncLogger
+		summary  []string
+		in, out  int
+		finalIn  int
+		finalOut int
+	}
+	harnesses = append(harnesses, &vs.Harness{
+		Name:     "c20-byteslogger",
+		Horizon:  time.Minute,
+		MaxSteps: 20000,
+		Body: func(x *vs.X) {
+			w := &blWorld{}
+			x.User = w
+			w.b = newBytesSyncLogger()
+			nsum := 1 + vs.Choose("summaries", 2)
+			vs.GoRole("sender", vs.RoleDaemon, func() {
+				w.b.AddOutbound(3)
+				w.b.AddOutbound(5)
+			})
+			vs.GoRole("receiver", vs.RoleDaemon, func() {
+				w.b.AddInbound(7)
+			})
+			vs.GoRole("onclose", vs.RoleDaemon, func() {
+				for i := 0; i < nsum; i++ {
+					w.summary = append(w.summary, w.b.ThroughputSummary())
+				}
+				w.in, w.out = w.b.GetStat()
+			})
+			vs.Sleep(10 * time.Second)
+			w.summary = append(w.summary, w.b.ThroughputSummary())
+			w.finalIn, w.finalOut = w.b.GetStat()
+		},
+		Check: func(x *vs.X) {
+			w := x.User.(*blWorld)
+			for _, t := range x.Threads() {
+				if t.Panic != "" {
+					x.Fail("no-panic", "panic:"+firstLineP(t.Panic), "thread %s panicked: %s\n%s", t.Name, t.Panic, t.PanicAt)
+				}
+			}
+			outEv := map[int]int{0: 0, 3: 1, 5: 1, 8: 2}
+			inEv := map[int]int{0: 0, 7: 1}
+			for _, s := range w.summary {
+				var in, out, oe, ie, secs int
+				var iu, ou string
+				if _, err := fmt.Sscanf(s, "Traffic throughput (up|down): %d %s -- (%d OnMessages, %d Sends, over %d seconds)", &in, &iu, &oe, &ie, &secs); err != nil {
+					// "%d B|%d B": split by hand
+					var rest string
+					parts := strings.SplitN(strings.TrimPrefix(s, "Traffic throughput (up|down): "), " -- ", 2)
+					if len(parts) != 2 {
+						x.Fail("summary", "unparseable-summary", "%q", s)
+						continue
+					}
+					lr := strings.SplitN(parts[0], "|", 2)
+					if len(lr) != 2 {
+						x.Fail("summary", "unparseable-summary", "%q", s)
+						continue
+					}
+					fmt.Sscanf(lr[0], "%d %s", &in, &iu)
+					fmt.Sscanf(lr[1], "%d %s", &out, &ou)
+					rest = parts[1]
+					if _, err := fmt.Sscanf(rest, "(%d OnMessages, %d Sends, over %d seconds)", &oe, &ie, &secs); err != nil {
+						x.Fail("summary", "unparseable-summary", "%q: %v", s, err)
+						continue
+					}
+				}
+				wo, ok1 := outEv[out]
+				wi, ok2 := inEv[in]
+				if !ok1 || !ok2 || wo != oe || wi != ie {
+					x.Fail("summary", "torn-throughput-summary", "summary %q pairs byte totals (in %d, out %d) with event counts (%d, %d) that never existed together", s, in, out, ie, oe)
+				}
+			}
+			if _, ok := outEv[w.out]; !ok {
+				x.Fail("summary", "impossible-total", "GetStat returned out=%d", w.out)
+			}
+			if w.finalIn != 7 || w.finalOut != 8 {
+				x.Fail("summary", "wrong-final-totals", "after everything was applied GetStat returns (%d,%d), want (7,8)", w.finalIn, w.finalOut)
+			}
+			x.Outcome(fmt.Sprintf("%v|%d,%d", w.summary, w.in, w.out))
+		},
+	})
+}
